@@ -96,7 +96,7 @@ type customForm struct {
 
 var c06Forms = []customForm{
 	{"extend-local", false}, {"extend-pkg", false}, {"extend-regex", false}, {"extend-conv-arg", false},
-	{"extend-error", true}, {"declared-method", false}, {"underlying", false}, {"underlying-src", false}, {"underlying-dst", false}, {"underlying-enum", false},
+	{"extend-error", true}, {"declared-method", false}, {"underlying", false}, {"underlying-src", false}, {"underlying-dst", false}, {"underlying-enum", false}, {"underlying-ctx-missing", false}, {"underlying-ctx-available", false},
 	{"extend-ctx-int", false}, {"extend-ctx-needs-missing", false}, {"extend-ctx-of-two", false}, {"extend-ctx-regex", false},
 	{"extend-error-ctx", true},
 	{"extend-sametype", false}, {"extend-sametype-skipcopy", false},
@@ -128,6 +128,10 @@ func buildC06(id string, form customForm, nest []nesting, wrapMode string, propG
 	if strings.HasPrefix(form.name, "underlying") {
 		ls := &space.Decl{Pkg: "in", Name: "U" + id, Under: tInt}
 		lt := &space.Decl{Pkg: "out", Name: "U" + id, Under: tStr}
+		if strings.HasPrefix(form.name, "underlying-ctx") {
+			// named ints on both sides: without the extend the pair would be a plain cast
+			lt.Under = tInt
+		}
 		if form.name == "underlying-enum" {
 			// both sides are enums by definition: the pair qualifies for enum conversion and for the underlying extend
 			ls.Consts = []space.Const{{Name: "U" + id + "A", Lit: "1"}}
@@ -174,6 +178,10 @@ func buildC06(id string, form customForm, nest []nesting, wrapMode string, propG
 	hasErr := form.fallible && wrapMode != "noerr" // "noerr": the tested method has no error result, so it must be refused
 	switch form.name {
 	case "declared-method-ctx-available":
+		params = "ctxa string, source " + s.Go("conv")
+		sc.SrcIdx, sc.CtxIdx, ctxTypes = 1, []int{0}, []*space.Ty{tStr}
+		mlines = append(mlines, "context ctxa")
+	case "underlying-ctx-available":
 		params = "ctxa string, source " + s.Go("conv")
 		sc.SrcIdx, sc.CtxIdx, ctxTypes = 1, []int{0}, []*space.Ty{tStr}
 		mlines = append(mlines, "context ctxa")
@@ -273,6 +281,13 @@ func buildC06(id string, form customForm, nest []nesting, wrapMode string, propG
 		applyMethodLines(lm, lines)
 		conv.Methods = append(conv.Methods, lm)
 		sc.Methods = append(sc.Methods, &ScMethod{Name: "Leaf", Params: "source " + sG + ", ctxq string", Result: tG, Lines: lines, M: lm})
+	case "underlying-ctx-missing", "underlying-ctx-available":
+		// the extend on the underlying types needs a string context; the method offers it or not
+		sc.ConvLines = append(sc.ConvLines, "useUnderlyingTypeMethods", "extend "+fn)
+		conv.Set.UseUnderlying = true
+		top.Set.UseUnderlying = true
+		sc.FuncsSrc = fmt.Sprintf("// goverter:context ctxv\nfunc %s(s int, ctxv string) int { return s + 500 + len(ctxv) }\n", fn)
+		reg(&model.Custom{Name: fn, Src: tInt, Dst: tInt, Ctx: []*space.Ty{tStr}, ArgsFmt: []string{"src", "ctx:0"}}, "conv."+fn)
 	case "underlying", "underlying-src", "underlying-dst", "underlying-enum":
 		sc.ConvLines = append(sc.ConvLines, "useUnderlyingTypeMethods", "extend "+fn)
 		conv.Set.UseUnderlying = true
